@@ -65,7 +65,8 @@ func main() {
 			fmt.Fprintf(os.Stderr, "Unexpected error: %v\n", err)
 			os.Exit(1)
 		}
-		if fi.Size() == 0 {
+		// stdin is a terminal (nothing was piped or redirected into it): nothing to read
+		if fi.Mode()&os.ModeCharDevice != 0 {
 			fmt.Fprintln(os.Stderr, "No data provided on stdin.  Use '-file' or pass data on stdin.")
 			os.Exit(1)
 		}
